@@ -6,12 +6,12 @@ CONSTANTS
   Modes = {"run"}
   ChainedSet = {TRUE, FALSE}
   Starts = {0, 1}
-  Targets = {0, 3}
+  Targets = {3}
   Corruptions <- NoCorruption
   NT = 2
   FollowRetries = FALSE
   MaxAgg = 1
-  QCap = 3
+  QCap = 2
   Linger = TRUE
   History = TRUE
   Eager = FALSE
